@@ -83,6 +83,7 @@ typedef struct sc_scn {
     int nstd;
     sc_std_t std[SC_MAXSTD];
     int ab;			/* give a and b instead of m */
+    char kit[8];		/* order in which the parameters are created */
     /* measurement noise actually added to the readings (C18) */
     double noise_nf[SC_MAXF], noise_tr[SC_MAXF];
     double outlier_sigmas;
@@ -460,46 +461,115 @@ static int sc_measure(sc_scn_t *sc, const sc_std_t *s, int k,
 /* ------------------------------------------------------ library binding */
 
 /* create the library parameters; returns 0 or -1 (errno from the library) */
+/* create parameter i (and first what it depends on); `pair`: make every
+ * parameter occupy two consecutive handles (an unused scalar first where the
+ * parameter needs only one) */
+static int sc_make_one(sc_scn_t *sc, vnacal_t *vcp, int i, char *made,
+	int pair)
+{
+    sc_par_t *p = &sc->par[i];
+
+    if (made[i] || p->kind == SCP_PREDEF)
+	return 0;
+    made[i] = 1;
+    if (p->kind == SCP_CORR && sc_make_one(sc, vcp, p->other, made, pair) != 0)
+	return -1;
+    if (pair && p->kind != SCP_UNKNOWN &&
+	    LIB(vnacal_make_scalar_parameter(vcp, 0.123)) < 0)
+	return -1;
+    switch (p->kind) {
+    case SCP_SCALAR:
+	p->handle = LIB(vnacal_make_scalar_parameter(vcp, p->truth[0]));
+	break;
+    case SCP_VECTOR:
+	p->handle = LIB(vnacal_make_vector_parameter(vcp, p->vf, p->vn,
+		    p->vv));
+	break;
+    case SCP_UNKNOWN:
+	if (p->vector_guess)
+	    p->guess_handle = LIB(vnacal_make_vector_parameter(vcp, sc->f,
+			sc->nf, p->guess));
+	else
+	    p->guess_handle = LIB(vnacal_make_scalar_parameter(vcp,
+			p->guess[0]));
+	if (p->guess_handle < 0)
+	    return -1;
+	p->handle = LIB(vnacal_make_unknown_parameter(vcp, p->guess_handle));
+	break;
+    case SCP_CORR:
+	p->handle = LIB(vnacal_make_correlated_parameter(vcp,
+		    sc->par[p->other].handle, NULL, 1, &p->sigma));
+	break;
+    default:
+	break;
+    }
+    return p->handle < 0 ? -1 : 0;
+}
+
+/*
+ * sc_make_params: create the library parameters -- the "cal kit" of the
+ * scenario -- in the order sc->kit names, which decouples handle numbers
+ * from the order of use (parameter table index = order of first use):
+ *   "use" (or empty)  in order of use
+ *   "rev"  in the opposite order
+ *   "hi8"  (nine or more parameters) the one used first is created ninth,
+ *          the one used second first, the third tenth, ..., and every
+ *          parameter occupies two handles: handles sixteen apart are used
+ *          high before low
+ *   "pad"  in order of use after thirteen parameters that stay unused, so
+ *          that the handles in use start at sixteen
+ * What a parameter depends on (the correlate of a correlated parameter) is
+ * created before it in every order.  Returns 0 or -1 (errno from the
+ * library).
+ */
 static int sc_make_params(sc_scn_t *sc, vnacal_t *vcp)
 {
-    for (int i = 0; i < sc->npar; ++i) {
-	sc_par_t *p = &sc->par[i];
+    int unit[SC_MAXPAR], order[SC_MAXPAR], n = 0;
+    char made[SC_MAXPAR] = { 0 }, used[SC_MAXPAR] = { 0 };
+    int pair = 0;
 
-	switch (p->kind) {
-	case SCP_PREDEF:
-	    break;
-	case SCP_SCALAR:
-	    p->handle = LIB(vnacal_make_scalar_parameter(vcp, p->truth[0]));
-	    if (p->handle < 0)
-		return -1;
-	    break;
-	case SCP_VECTOR:
-	    p->handle = LIB(vnacal_make_vector_parameter(vcp, p->vf, p->vn,
-			p->vv));
-	    if (p->handle < 0)
-		return -1;
-	    break;
-	case SCP_UNKNOWN:
-	    if (p->vector_guess)
-		p->guess_handle = LIB(vnacal_make_vector_parameter(vcp,
-			    sc->f, sc->nf, p->guess));
-	    else
-		p->guess_handle = LIB(vnacal_make_scalar_parameter(vcp,
-			    p->guess[0]));
-	    if (p->guess_handle < 0)
-		return -1;
-	    p->handle = LIB(vnacal_make_unknown_parameter(vcp,
-			p->guess_handle));
-	    if (p->handle < 0)
-		return -1;
-	    break;
-	case SCP_CORR:
-	    p->handle = LIB(vnacal_make_correlated_parameter(vcp,
-			sc->par[p->other].handle, NULL, 1, &p->sigma));
-	    if (p->handle < 0)
-		return -1;
-	    break;
+    for (int i = 0; i < sc->npar; ++i) {
+	if (sc->par[i].kind != SCP_PREDEF) {
+	    sc->par[i].guess_handle = -1;
+	    sc->par[i].handle = -1;
+	    unit[n++] = i;
 	}
+    }
+    for (int q = 0; q < n; ++q)
+	order[q] = q;
+    if (strcmp(sc->kit, "rev") == 0) {
+	for (int q = 0; q < n; ++q)
+	    order[q] = n - 1 - q;
+    } else if (strcmp(sc->kit, "hi8") == 0 && n >= 9) {
+	int lo = 0, hi = 8;
+
+	pair = 1;
+	for (int d = 0; d < n; ++d) {
+	    int q = -1;
+
+	    if (d % 2 == 0) {
+		while (hi < n && used[hi])
+		    ++hi;
+		if (hi < n)
+		    q = hi;
+	    }
+	    if (q < 0) {
+		while (used[lo])
+		    ++lo;
+		q = lo;
+	    }
+	    used[q] = 1;
+	    order[q] = d;
+	}
+    } else if (strcmp(sc->kit, "pad") == 0) {
+	for (int i = 0; i < 13; ++i) {
+	    if (LIB(vnacal_make_scalar_parameter(vcp, 0.01 * (i + 1))) < 0)
+		return -1;
+	}
+    }
+    for (int q = 0; q < n; ++q) {
+	if (sc_make_one(sc, vcp, unit[order[q]], made, pair) != 0)
+	    return -1;
     }
     return 0;
 }
